@@ -129,6 +129,12 @@ func runVerifyCase(c *VerifyCase) (bool, bool, error) {
 	if b.PrepareErr != nil {
 		return acc, nt, nil
 	}
+	if isTimeout(a.Err) || isTimeout(b.Err) {
+		// preparing tens of thousands of constants takes longer than the
+		// evaluator's safety deadline on a busy machine: a time budget hit is
+		// inconclusive, never a verdict (false alarm 34 of the thorough tier)
+		return acc, nt, nil
+	}
 	if (a.Err == nil) != (b.Err == nil) {
 		return acc, nt, fmt.Errorf("padded script err=%v, unpadded err=%v", a.Err, b.Err)
 	}
